@@ -290,11 +290,38 @@ def setCell (s : Sheet) (k : Setter) (c r : Nat) (p : Payload) : Sheet × Res :=
     if w.2 = .ok then ({ w.1 with sst := (intern s.sst e).1 }, w.2) else (s, w.2)
   | _ => writeAt s c r (writeCell k p)
 
-/-- `SetCellFormula(sheet, cell, formula)` without options: "" removes the formula and
-nothing else; otherwise the content is replaced, `T = "str"`, `IS = nil`. -/
+/-- the shared string item an index token (`V` of a shared-string cell) denotes -/
+def sstEntry? (sst : List Tok) (vtok : Tok) : Option Tok :=
+  match unhex vtok.toList with
+  | some ds => match Ref.digitsVal ds with
+    | some i => sst[i]?
+    | none => none
+  | none => none
+
+/-- the value `SetCellFormula` leaves behind as the cached result (since "SetCellFormula keeps the cell's
+text or boolean value readable as the cached result"): a shared string cell gets its text moved into the
+cell (`getValueFrom` raw, then `setStr`: T = "str", V = the escaped text, i.e. the item's token without its
+kind letter), a boolean keeps its type, everything else is retyped to "str" with V untouched. -/
+def formulaRetype (sst : List Tok) (fm : Tok) (v : CellV) : CellV :=
+  if v.t = Facts.C03.sstTag then
+    let text : Tok :=
+      if v.v = "" then "" else
+      match sstEntry? sst v.v with
+      | some e =>
+        let body := String.ofList (e.toList.drop 1)
+        if body = "-" then "" else body
+      | none => v.v
+    { v with f := some fm, t := Facts.C03.formulaTag, v := text, is := none }
+  else if v.t = Facts.C03.boolTag then { v with f := some fm, is := none }
+  else { v with f := some fm, t := Facts.C03.formulaTag, is := none }
+
+/-- the cell update of `SetCellFormula(sheet, cell, formula)` without options: "" removes the formula and
+nothing else -/
+def formulaWrite (sst : List Tok) (fm : Tok) (v : CellV) : CellV :=
+  if fm = "" then { v with f := none } else formulaRetype sst fm v
+
 def setFormula (s : Sheet) (c r : Nat) (fm : Tok) : Sheet × Res :=
-  writeAt s c r fun v =>
-    if fm = "" then { v with f := none } else { v with f := some fm, t := Facts.C03.formulaTag, is := none }
+  writeAt s c r (formulaWrite s.sst fm)
 
 /-- `SetCellStyle(sheet, hCell, vCell, styleID)`: no redirect; densifies *before* the
 style id is validated. -/
@@ -423,8 +450,7 @@ def step (s : Sheet) : Op → Sheet × Res
         let w := writeAt s c r (writeCell k (.tv Facts.C03.sstTag (idxTok (intern s.sst e).2)))
         if w.2 = .ok then ({ w.1 with sst := (intern s.sst e).1 }, w.2) else (s, w.2)
       | _ => writeAt s c r (writeCell k p)
-  | .formula c r fm => writeAt s c r fun v =>
-      if fm = "" then { v with f := none } else { v with f := some fm, t := Facts.C03.formulaTag, is := none }
+  | .formula c r fm => writeAt s c r (formulaWrite s.sst fm)
   | .style c1 r1 c2 r2 id =>
       if c1 = 0 ∨ r1 = 0 ∨ c2 = 0 ∨ r2 = 0 then (s, .err) else
       if s.nStyles ≤ id then (s, .err) else
